@@ -17,8 +17,8 @@ def js_string(total_len):
     return "x" * (total_len - 2)
 
 def points():
-    return ["api-start-input", "api-startsync-input", "pass-output", "pass-end-output", "task-reply", "task-end-reply", "map-output", "parallel-output",
-            "callback-output", "definition-create", "definition-update", "name-create", "name-start", "history", "history-retry"]
+    return ["api-start-input", "api-startsync-input", "pass-output", "pass-end-output", "task-reply", "task-end-reply", "task-reply-discarded", "invoke-reply-discarded",
+            "map-output", "parallel-output", "callback-output", "callback-raw", "callback-raw-discarded", "definition-create", "definition-update", "name-create", "name-start", "history", "history-retry"]
 
 def _case(args):
     point, size = args
@@ -74,6 +74,38 @@ def _case(args):
             st_["End"] = True; d = {"StartAt": "A", "States": {"A": st_}}
         w, api = world({"m": d}, workers={"f": {"*": [["okstr", size]]}})
         w.script.append({"op": "start", "machine": "m", "name": "e", "input": {}})
+        w.run()
+        status, err = terminal(w, exec_arn("m", "e"))
+        got = ("accepted",) if status == "SUCCEEDED" else ("refused", err, status)
+        want_err = "States.DataLimitExceeded"
+    elif point in ("task-reply-discarded", "invoke-reply-discarded"):
+        # the Task throws its result away (ResultPath null): the state-output check cannot see it, only the check on the reply itself can
+        if point == "task-reply-discarded":
+            st_ = {"Type": "Task", "Resource": FA + "f", "ResultPath": None, "Next": "Z"}
+        else:
+            st_ = {"Type": "Task", "Resource": "arn:aws:states:local::rpcmessage:invoke", "Parameters": {"FunctionName": FA + "f", "Payload": 1}, "ResultPath": None, "Next": "Z"}
+        w, api = world({"m": {"StartAt": "A", "States": {"A": st_, "Z": Z}}}, workers={"f": {"*": [["okstr", size]]}})
+        w.script.append({"op": "start", "machine": "m", "name": "e", "input": {}})
+        w.run()
+        status, err = terminal(w, exec_arn("m", "e"))
+        got = ("accepted",) if status == "SUCCEEDED" else ("refused", err, status)
+        want_err = "States.DataLimitExceeded"
+    elif point in ("callback-raw", "callback-raw-discarded"):
+        # the callback message as any AMQP client (another front end) can publish it to the reply queue, not through this API
+        from pika._core import BasicProperties
+        st_ = {"Type": "Task", "Resource": "arn:aws:states:local::rpcmessage:invoke.waitForTaskToken",
+               "Parameters": {"FunctionName": FA + "f", "Payload": {"token.$": "$$.Task.Token"}}, "Next": "Z"}
+        if point.endswith("discarded"):
+            st_["ResultPath"] = None
+        w, api = world({"m": {"StartAt": "A", "States": {"A": st_, "Z": Z}}}, workers={"f": {"*": [["none"]]}})
+        w.script.append({"op": "start", "machine": "m", "name": "e", "input": {}})
+        while not w.workers["f"].requests:
+            en = w.enabled()
+            w.step(en[0])
+        take = [op for op in w.broker.oplog if op.get("op") == "worker_take"][0]
+        text = json.dumps(js_string(size))
+        w.env_ch.basic_publish("", take["reply_to"], text, BasicProperties(correlation_id=take["correlation_id"], content_type="application/json",
+                                                                            headers={"x-SendTaskSuccess": True}))
         w.run()
         status, err = terminal(w, exec_arn("m", "e"))
         got = ("accepted",) if status == "SUCCEEDED" else ("refused", err, status)
@@ -192,7 +224,7 @@ def run(tier, seed):
                    {"kind": "quota", "property": PROP, "signature": sig, "point": pt, "size": s}, size=abs(s - lim))
     cr.coverage = {
         "evaluations": n, "distinct_nontrivial": n,
-        "rule": "for each enforcement point (StartExecution / StartSyncExecution input, SendTaskSuccess output, Pass / Map / Parallel state output with Next and with End, task reply with Next and with End, "
+        "rule": "for each enforcement point (StartExecution / StartSyncExecution input, SendTaskSuccess output, Pass / Map / Parallel state output with Next and with End, task reply with Next, with End and thrown away by ResultPath null (short and invoke form), callback message published straight to the reply queue (kept and thrown away), "
                 "definition in Create / Update, names in Create / StartExecution) every size L-2..L+2 plus a tiny one and 2L, as bare JSON strings so that every serializer yields the same text length; "
                 "plus a looping machine run for 40000 steps against the real 25000-event history limit; each through the real API / engine on the simulated broker",
         "points": points(), "samples": [{"point": "pass-output", "size": MAXD}, {"point": "api-start-input", "size": MAXD + 1}], "exhaustive": True,
